@@ -2,6 +2,7 @@
 import json, os, sys, time, shutil, multiprocessing as mp
 sys.path.insert(0, os.path.dirname(os.path.abspath(__file__)))
 import z3
+import subprocess
 import gen, lang, tv
 from clif import PathCut
 
@@ -10,6 +11,8 @@ WORK = os.path.join(os.environ.get("VERIF_BUILD") or os.path.join(os.path.dirnam
 
 _PROGS = {}
 _OWNER = os.getpid()
+# log lines of the extractor's registered functions that are host-call events (everything except create/clone/drop/eq bookkeeping)
+HOST_EVENT_PREFIXES = ("emit", "pure", "msub", "opt_of", "res_of")
 
 
 def _check(args):
@@ -67,6 +70,52 @@ def concrete_reference(prog, argbits):
     return "ok", v, r.trace
 
 
+def fp_bits_hex(v):
+    """IEEE bits of a concrete z3 FP value; every NaN is rendered as the canonical quiet NaN (fpToIEEEBV(NaN) is unspecified)"""
+    x = z3.simplify(v)
+    if isinstance(x, z3.FPNumRef) and x.isNaN():
+        return hex(0x7fc00000 if x.sort().ebits() == 8 else 0x7ff8000000000000)
+    return hex(z3.simplify(z3.fpToIEEEBV(x)).as_long())
+
+
+def rust_debug_str(s):
+    """how Rust's `{:?}` prints a str (the extractor logs string arguments that way)"""
+    out = []
+    for ch in s:
+        if ch == "\\":
+            out.append("\\\\")
+        elif ch == '"':
+            out.append('\\"')
+        elif ch == "\n":
+            out.append("\\n")
+        elif ch == "\t":
+            out.append("\\t")
+        elif ch == "\r":
+            out.append("\\r")
+        elif ch == "\0":
+            out.append("\\0")
+        else:
+            out.append(ch)
+    return '"' + "".join(out) + '"'
+
+
+def is_nan_hex(h):
+    x = int(h, 16)
+    if x <= 0xffffffff:
+        return (x & 0x7f800000) == 0x7f800000 and (x & 0x7fffff) != 0
+    return (x & 0x7ff0000000000000) == 0x7ff0000000000000 and (x & ((1 << 52) - 1)) != 0
+
+
+def same_event(w, g):
+    """host-call log lines are equal, with every NaN argument of a float host function equal to every other NaN"""
+    if w == g:
+        return True
+    pw, pg = w.split(" "), g.split(" ")
+    if len(pw) != len(pg) or pw[0] != pg[0] or not pw[0].endswith(("f32", "f64")):
+        return False
+    return all(a == b or (a.startswith("0x") and b.startswith("0x") and is_nan_hex(a) and is_nan_hex(b)) for a, b in zip(pw[1:], pg[1:]))
+
+
 def fmt_val(ty, v):
     if isinstance(ty, tuple) and ty[0] in ("opt", "verdict"):
         names = ["Some", "None"] if ty[0] == "opt" else ["Accept", "Reject"]
@@ -80,8 +129,7 @@ def fmt_val(ty, v):
     if ty == "bool":
         return hex(1 if z3.is_true(z3.simplify(v)) else 0)
     if lang.is_float(ty):
-        x = z3.simplify(z3.fpToIEEEBV(v))
-        return hex(x.as_long())
+        return fp_bits_hex(v)
     if lang.is_int(ty) or ty == "char":
         return hex(z3.simplify(v).as_long())
     return None
@@ -172,21 +220,22 @@ def confirm(prog, script, finding):
                         parts.append("true" if z3.is_true(v) else "false")
                     else:
                         parts.append(str(v.as_signed_long() if lang.INTS[p[1]][1] else v.as_long()))
-            return '"' + "".join(parts) + '"'
+            return rust_debug_str("".join(parts))
         want = []
         for (n, a) in trace:
             if a and isinstance(a[0], tuple) and a[0][0] == "str":
                 want.append(n + " " + render(a[0]))
                 continue
-            want.append(n + " " + " ".join(fmt_val("bool", x) if z3.is_bool(x) else (hex(z3.simplify(z3.fpToIEEEBV(x)).as_long()) if z3.is_fp(x) else hex(z3.simplify(x).as_long())) for x in a))
+            want.append(n + " " + " ".join(fmt_val("bool", x) if z3.is_bool(x) else (fp_bits_hex(x) if z3.is_fp(x) else hex(z3.simplify(x).as_long())) for x in a))
         got = []
         for e in real["events"]:
             p = e.split()
             if p[0] == "call":
                 got.append(p[1] + " " + " ".join(p[3:] if p[1] in ("eat", "peek") else p[2:]))
-            elif p[0].startswith(("emit", "pure", "msub")):
+            elif p[0].startswith(HOST_EVENT_PREFIXES):
                 got.append(e)
-        return want != got, {"want": want, "got": got}
+        differs = len(want) != len(got) or any(not same_event(w, g) for w, g in zip(want, got))
+        return differs, {"want": want, "got": got}
     return False, {}
 
 
@@ -214,9 +263,37 @@ def run(progs, modes_filter, tier, jobs=14, k_loop=3, depth=4, timeout_ms=10000)
     for r in results:
         script = os.path.join(WORK, "src", r["name"] + ".roto")
         for f in r["findings"]:
-            ok, det = confirm(_PROGS[r["name"]], script, f)
+            try:
+                ok, det = confirm(_PROGS[r["name"]], script, f)
+            except subprocess.TimeoutExpired:
+                ok, det = False, {"note": "the replay against the real JIT did not finish within 60 s"}
             f["confirmed"], f["replay"] = ok, det
+    # translator validation (tv/tvalidate.py): programs the solver found nothing on are run for real on a few concrete
+    # argument vectors and compared with the reference; a difference means the encoding misrepresents the code
+    todo = [(r["name"], sorted(_PROGS[r["name"]].meta["modes"] & modes_filter & {"value", "trace"})) for r in results
+            if r["status"] == "ok" and not r["findings"]]
+    todo = [t for t in todo if t[1]][:VALIDATE_MAX]
+    tv.REAL_TIMEOUT = 8
+    with mp.Pool(jobs) as pool:
+        vres = dict(pool.map(_validate, todo, chunksize=8))
+    tv.REAL_TIMEOUT = 60
+    for r in results:
+        r["validation"] = vres.get(r["name"], {"runs": 0, "skipped": 0, "bad": []})
     return results, t_dump
+
+
+VALIDATE_MAX = 3000
+
+
+def _validate(item):
+    name, kinds = item
+    import tvalidate
+    tv.REAL_TIMEOUT = 8
+    try:
+        runs, skipped, bad = tvalidate.validate(sys.modules[__name__], _PROGS[name], os.path.join(WORK, "src", name + ".roto"), set(kinds), 2)
+    except Exception as e:
+        runs, skipped, bad = 0, 0, [{"args": [], "kind": "internal", "details": repr(e)[:300]}]
+    return name, {"runs": runs, "skipped": skipped, "bad": bad}
 
 
 if __name__ == "__main__":
